@@ -90,6 +90,7 @@ def run(ctx) -> None:
     P9 = c09._params(ctx.unit("itertools.tee_peer"))
     if objmodel.tee_construction(ctx, "R04.7", P9) is None:
         ctx.note("R04.7: the construction of tee is not evaluable over the object model (R09.5's statement-shape rule applies in C09)")
+    objmodel.release_histories(ctx, "R04.9")
     ctx.floor("iterable_params", 20)
     ctx.floor("owning_handle_params", 3)
     ctx.floor("aclose_methods", 4)
